@@ -1257,6 +1257,12 @@ func EvalProgram(progSrc string, files []InputFile, rootSelectors []string, stdo
 					if err != nil {
 						return &ev, err
 					}
+					if cell.Value.Tag == ValueNil {
+						// a selector that finds nothing selects a plain null, as
+						// BEGINFILE { $ = <selector> } does; the placeholder for a
+						// missing member must not stay linked to the discarded document
+						cell = NewCell(NewValue(nil))
+					}
 					rootCells = append(rootCells, cell)
 				}
 			} else {
